@@ -415,7 +415,12 @@ MLSD_LINES = [b'type=file;size=5;modify=20150101123000;UNIX.mode=0644; f.txt', b
               b'type=file;size=1234;modify=20150101123000; file.txt', b'type=dir;modify=20150101; dir', b'type=cdir; .', b'Type=FILE;Size=x; f',
               b'size=; f', b'type=file;modify=99999999999999; f', b'nospace', b'=;=; f', b'type=file;size=-1;modify=2015; f', b'; f',
               b'type=file;modify=20150230120000; f', b'type=file;modify=2015010112300; f', b'type=OS.unix=slink:/x; l', b'type=file;size=1e3; f',
-              b'unix.mode=0644;unix.uid=x; f', b'type=file;modify=20150101123000.999; f', b'a=b', b' leading', b'type=file;; f']
+              b'unix.mode=0644;unix.uid=x; f', b'type=file;modify=20150101123000.999; f', b'a=b', b' leading', b'type=file;; f',
+              # RFC 3659 time-vals with fractions of any length (1, 6, 7, 12 digits), an empty and a non-numeric fraction
+              b'type=file;modify=20150101123000.5; f', b'type=file;modify=20150101123000.123456; f',
+              b'type=file;modify=20150101123000.1234567; f', b'type=file;modify=20150101123000.123456789012; f',
+              b'type=file;modify=20150101123000.; f', b'type=file;modify=20150101123000.x; f', b'type=file;modify=.5; f',
+              b'type=file;create=20150101123000.1234567;modify=20150101123000.0000000; f']
 
 
 def ftp_reply(r, code, hostile=False):
